@@ -1,10 +1,12 @@
-(* Actual/NestingActual.v — the quirk vector claimed for the current tree (hand-maintained; tied to
-   the code by the correspondence check, and listed flag-by-flag in /verif/known_findings.json). *)
+(* Actual/NestingActual.v - the quirk vector claimed for the current tree (hand-maintained; tied to
+   the code by the correspondence check, and listed flag-by-flag in /verif/known_findings.json).
+   After the fix: commits of 2026-10-02 only the Python start depth still deviates; the two table flags
+   say "read the table from the source", which is now correct and is what the theorems cover. *)
 From TL Require Import Lib.Base Model.Nesting.
 
 Definition nesting_actual : nquirks := {|
   q_py_start_from_code := true;
   q_py_table_from_code := true;
-  q_ts_elseif_nests := true;
-  q_rs_elseif_nests := true;
+  q_ts_elseif_nests := false;
+  q_rs_elseif_nests := false;
   q_rs_table_from_code := true |}.
